@@ -69,7 +69,18 @@ def run_worker(part, workdir):
     return res
 
 
-def replay(part, args, workdir, tz_offsets=None, tag='cex', timeout=60):
+def _zone_tzs(zone):
+    """POSIX TZ candidates for (std offset, dst in force): without DST a fixed offset; with DST two
+    rules whose DST periods together cover the whole year (northern / southern style)"""
+    std, dst = int(zone[0]), bool(zone[1])
+    base = _posix_tz(std)
+    if not dst:
+        return [base]
+    alt = _posix_tz(std + 3600).replace('XXX', 'YYY')
+    return [base + alt + ',M1.2.0/0,M12.3.0/0', base + alt + ',M7.1.0/0,M6.3.0/0']
+
+
+def replay(part, args, workdir, tz_offsets=None, tag='cex', timeout=60, zone=None):
     """Concrete run of the same harness body on the uninstrumented repo. -> dict(ok, observed)"""
     src = os.path.join(workdir, part.name + '.py')
     if not os.path.exists(src):
@@ -79,7 +90,9 @@ def replay(part, args, workdir, tz_offsets=None, tag='cex', timeout=60):
     with open(af, 'w') as f:
         json.dump(args if isinstance(args, list) else {'args': args}, f)
     tzs = [None]
-    if part.tz_replay and tz_offsets:
+    if part.tz_replay and zone:
+        tzs = _zone_tzs(zone)
+    elif part.tz_replay and tz_offsets:
         tzs = [_posix_tz(o) for o in tz_offsets]
     last = None
     for tz in tzs:
@@ -246,7 +259,7 @@ def check(pid, tier, seed):
                     harness_errors.append('%s refuted without a side-channel counterexample: %s'
                                           % (p.name, r.get('messages')))
                     continue
-                rr = replay(p, cex['args'], workdir, tz_offsets=cex.get('env_offsets'))
+                rr = replay(p, cex['args'], workdir, tz_offsets=cex.get('env_offsets'), zone=cex.get('env_zone'))
                 traces += 1
                 if rr and rr.get('ok') is False:
                     n_cex += 1
@@ -254,6 +267,7 @@ def check(pid, tier, seed):
                     with open(rp, 'w') as f:
                         json.dump({'property': pid, 'partition': p.name, 'bound': p.bound,
                                    'args': cex['args'], 'env_offsets': cex.get('env_offsets'),
+                                   'env_zone': cex.get('env_zone'),
                                    'tz': rr.get('tz'), 'tz_replay': p.tz_replay,
                                    'observed_symbolic': cex.get('observed'),
                                    'observed_concrete': rr.get('observed'),
@@ -423,7 +437,7 @@ def replay_file(pid, path):
         p.name = rec['partition']
         p.tz_replay = rec.get('tz_replay', False)
         p.source = lambda: rec['source']
-        r = replay(p, rec['args'], workdir, tz_offsets=rec.get('env_offsets'))
+        r = replay(p, rec['args'], workdir, tz_offsets=rec.get('env_offsets'), zone=rec.get('env_zone'))
         print(json.dumps(r))
         if r and r.get('ok') is False:
             print('VIOLATION property=%s replay=%s' % (pid, path))
